@@ -16,6 +16,7 @@ META = {
     'not_decided': ['that a particular heap graph survives (run-time reachability)', 'cyclic arrays in Display', 'cross-run lifetimes (C17)'],
 }
 META['explanation'] += ' R03.8 no object is released twice: free_recursive frees an object only after a set answered `first time` for it when it is taken from the work list (shared with R04.5); a work-list walk is left only when the list is empty.'
+META['explanation'] += ' R03.5 also: no read of an Object that may alias the target is reachable from a mutation of the target; what a work list is built with has been entered in the visited set when objects are tested as they are queued.'
 GCN = 'gc::GC::'
 
 
